@@ -335,21 +335,75 @@ def operand_strs(prog, fn, op, depth=4):
     return []
 
 
+def const_str_list(prog, fn, op):
+    """the strings of a constant `[&str; N]` operand (a named const table, possibly reached through a promoted reference)"""
+    def from_name(nm, idx):
+        if idx is None:
+            v = prog.consts_hir.get(nm)
+            return v if isinstance(v, list) and v and all(isinstance(x, str) for x in v) else None
+        pf = prog.fns.get("%s::promoted[%s]" % (nm, idx))
+        if pf is None:
+            return None
+        for b_, i_, s_ in pf.assigns():
+            for x in expr_walk(pf.rvalue_expr(s_["r"], 4)):
+                if x[0] == "uneval" and (len(x) < 3 or x[2] is None):
+                    v = from_name(x[1], None)
+                    if v:
+                        return v
+        return None
+    for x in expr_walk(fn.expr(op, 8)):
+        if x[0] == "uneval":
+            v = from_name(x[1], x[2] if len(x) > 2 else None)
+            if v:
+                return v
+    return None
+
+
+def _switch_on_result(fn, nb, dest_local, hops=6):
+    """the switch that tests the boolean produced into dest_local, following plain copies through straight-line blocks"""
+    track = {dest_local}
+    cur = nb
+    for _ in range(hops):
+        if cur is None:
+            return None
+        for s_ in fn.stmts(cur):
+            if s_["k"] == "assign" and not s_["p"].get("pr") and s_["r"]["k"] == "use" and s_["r"]["a"].get("p") is not None \
+                    and not s_["r"]["a"]["p"].get("pr") and s_["r"]["a"]["p"]["l"] in track:
+                track.add(s_["p"]["l"])
+        tt = fn.term(cur)
+        if tt["k"] == "switch":
+            return (cur, tt) if op_local(tt["a"]) in track else None
+        if tt["k"] != "goto":
+            return None
+        cur = tt["t"]
+    return None
+
+
+def guard_switch_block(fn, gb):
+    """block holding the switch that tests the result of the comparison call in block gb"""
+    t = fn.term(gb)
+    sw = _switch_on_result(fn, t.get("t"), t["dest"]["l"]) if t.get("t") is not None else None
+    return sw[0] if sw else None
+
+
 def str_eq_guards(prog, fn):
-    """[(call_bb, literal, true_target_bb, false_target_bb)] for every `x == "lit"` test"""
+    """[(call_bb, literal, true_target_bb, false_target_bb)] for every `x == "lit"` test; `TABLE.contains(&x)` over a constant table
+    of strings counts as one test per entry"""
     out = []
     for b, t, c in fn.calls():
-        if c is None or not c.endswith("::eq") or "PartialEq" not in c:
+        if c is None or t.get("t") is None:
             continue
         lits = []
-        for a in t["args"]:
-            lits += operand_strs(prog, fn, a)
-        if not lits or t.get("t") is None:
+        if c.endswith("::eq") and "PartialEq" in c:
+            for a in t["args"]:
+                lits += operand_strs(prog, fn, a)
+        elif c.endswith("[T]>::contains") and t.get("args"):
+            lits = const_str_list(prog, fn, t["args"][0]) or []
+        if not lits:
             continue
-        nb = t["t"]
-        # the result is switched on either in the continuation block or a later one using dest
-        tt = fn.term(nb)
-        if tt["k"] == "switch" and op_local(tt["a"]) == t["dest"]["l"]:
+        sw = _switch_on_result(fn, t["t"], t["dest"]["l"])
+        if sw:
+            nb, tt = sw
             tgt = {v: x for v, x in tt["targets"]}
             true_bb = tt["otherwise"] if 0 in tgt else tgt.get(1)
             false_bb = tgt.get(0, tt["otherwise"])
